@@ -781,3 +781,63 @@ def rule_endian(ctx, R):
     r = be.run(f, [('obj', o)])
     lanes = [be.lane_read(r[1], 32, i) for i in range(4)] if isinstance(r, tuple) else None
     R.check(lanes == L, 'rx_cast_vec_f2i', where(f), expected=[hex(x) for x in L], found=[hex(x) for x in lanes] if lanes else r)
+
+
+# ---------------------------------------------------------------------------------------------------------------------------
+# [PORT-ENDIAN-PAIR] an object that is read through the little-endian helpers is written through them too
+LE_READERS = ('load32', 'load64', 'load48', 'rx_load_vec_f128', 'rx_load_vec_i128', 'rx_cvt_packed_int_vec_f128')
+LE_WRITERS = ('store32', 'store64', 'store48', 'rx_store_vec_f128', 'rx_store_vec_i128')
+
+
+def rule_endian_pair(ctx, R):
+    R.rule('PORT-ENDIAN-PAIR', 'on a big-endian target the helpers load32 / load64 / rx_load_vec_* assemble a value from bytes in little-endian order: a member that some function reads through such a helper (the E-register masks of '
+           'the program configuration, ...) must get its value through the matching store helper, never by a plain assignment - a native store followed by a little-endian load returns the byte-swapped value; '
+           'decided on the big-endian cross parse (s390x) of the interpreter units', min_instances=1)
+    F = astq.Facts(ctx, 'K6')
+    R.saw(config='K6')
+
+    def member_of(n):
+        """(class, member) of the object whose address / array the expression designates"""
+        n = strip_all(n)
+        while n['k'] in ('Cast', 'Paren') or (n['k'] == 'Un' and n.get('op') in ('&', '*')) or n['k'] == 'Idx':
+            n = strip_all(n['e'] if n['k'] in ('Cast', 'Paren', 'Un') else n['b'])
+        if n['k'] == 'Mem' and n.get('dk') == 'Field':
+            return (n.get('cls'), n.get('m'))
+        return None
+    read = {}
+    funcs = [f for f in F.all_funcs() if f.get('body') is not None and f['file'].startswith(ctx.repo)]
+    seen = set()
+    for f in funcs:
+        if (f['q'], f['file'], f['line']) in seen:
+            continue
+        seen.add((f['q'], f['file'], f['line']))
+        for x in walk(f['body']):
+            if x['k'] == 'Call' and x.get('name') in LE_READERS and x.get('a'):
+                m = member_of(x['a'][0])
+                if m and m[0]:
+                    read.setdefault(m, '%s:%d' % (f['file'], x.get('ln') or f['line']))
+    if not read:
+        raise AnalysisBroken('PORT-ENDIAN-PAIR: no member is read through a little-endian helper in the big-endian parse')
+    seen = set()
+    native = {}
+    helper = {}
+    for f in funcs:
+        if (f['q'], f['file'], f['line']) in seen:
+            continue
+        seen.add((f['q'], f['file'], f['line']))
+        for x in walk(f['body']):
+            if x['k'] in ('Assign', 'CAssign'):
+                m = member_of(x['l'])
+                l = strip_all(x['l'])
+                if m in read and l['k'] in ('Idx', 'Mem'):
+                    native.setdefault(m, []).append('%s:%d `%s`' % (f['file'], x.get('ln') or f['line'], show(x)[:70]))
+            if x['k'] == 'Call' and x.get('name') in LE_WRITERS and x.get('a'):
+                m = member_of(x['a'][0])
+                if m in read:
+                    helper.setdefault(m, []).append('%s:%d' % (f['file'], x.get('ln') or f['line']))
+    for m, where in sorted(read.items(), key=lambda kv: str(kv[0])):
+        inst = '%s::%s' % m
+        if m in native:
+            R.violation(inst, native[m][0].split(' ')[0], expected='written through store32 / store64 / rx_store_vec_* (it is read through a little-endian helper at %s)' % where, found='plain assignment: ' + '; '.join(native[m][:2]))
+        else:
+            R.ok(inst + (' (written through a helper at %s)' % helper[m][0] if m in helper else ' (no writer in the parsed units)'), where)
